@@ -265,7 +265,9 @@ class Chain:
 
     def _hapseg(self, ln, rank=1):
         i = self._id()
-        self.g.add_seg(i, _seq(ln, self._n + 50), [("LN", "i", str(ln)), ("SN", "Z", self.hap), ("SO", "i", str(self._hso)), ("SR", "i", str(rank))])
+        # one contig name per rank: a contig has exactly one rank in a valid rGFA
+        name = self.hap if rank == 1 else f"{self.hap}.r{rank}"
+        self.g.add_seg(i, _seq(ln, self._n + 50), [("LN", "i", str(ln)), ("SN", "Z", name), ("SO", "i", str(self._hso)), ("SR", "i", str(rank))])
         self._hso += ln + 3
         return i
 
